@@ -43,6 +43,7 @@ Fixpoint index_of (v : L) (l : list L) (k : Z) : option Z :=
   | x :: xs => if leq v x then Some k else index_of v xs (k + 1)
   end.
 
+Definition is_some {A} (o : option A) : bool := match o with Some _ => true | None => false end.
 Definition outcome := res unit.
 Definition is_ok {A} (r : res A) : bool := match r with Ok _ => true | Err _ => false end.
 
@@ -137,16 +138,30 @@ Definition M_append (s : igo) (v : L) : igo * outcome :=
       else (s1, Err "KeyError")
   end.
 
-(* _IndexGOMixin.extend (index.py:1452-1458): a loop of append, no validation before the loop *)
-Fixpoint M_extend (s : igo) (vs : list L) : igo * outcome :=
+(* _IndexGOMixin.extend (index.py:1486-1500, after fix c675c22): FIRST every value is validated against
+   __contains__ and against the values seen before it in the same call (nothing is mutated but the array
+   cache), THEN the values are appended one by one *)
+Fixpoint M_extend_check (s : igo) (vs observed : list L) : igo * bool :=
+  match vs with
+  | [] => (s, true)
+  | v :: r => let s1 := M_contains_state s v in
+              if M_contains s v || mem v observed then (s1, false)
+              else M_extend_check s1 r (observed ++ [v])
+  end.
+
+Fixpoint M_extend_loop (s : igo) (vs : list L) : igo * outcome :=
   match vs with
   | [] => (s, Ok tt)
   | v :: r => let '(s1, o) := M_append s v in
               match o with
-              | Ok _ => M_extend s1 r
+              | Ok _ => M_extend_loop s1 r
               | Err e => (s1, Err e)
               end
   end.
+
+Definition M_extend (s : igo) (vs : list L) : igo * outcome :=
+  let '(s1, ok) := M_extend_check s vs [] in
+  if ok then M_extend_loop s1 vs else (s1, Err "KeyError").
 
 Definition M_istep (s : igo) (op : iop) : igo * outcome :=
   match op with
@@ -206,22 +221,19 @@ Definition igo_wfb (s : igo) : bool :=
   end &&
   (g_recache s || (list_eqb leq (g_arr s) (g_lm s) && (g_npos s =? g_cnt s))).
 
-(* guard: the inputs on which the implementation meets the specification.
-   extend: either every label is new, or the first one already fails (nothing appended before). *)
-Fixpoint dom_extend (s : igo) (vs : list L) (first : bool) : bool :=
-  match vs with
-  | [] => true
-  | v :: r => let '(s1, o) := M_append s v in
-              match o with
-              | Ok _ => dom_extend s1 r false
-              | Err _ => first
-              end
+(* guard: the inputs on which the implementation meets the specification.  An index with a map: none.
+   A loc_is_iloc index: __contains__ answers False for every label that is not an int, so extend's
+   validation does not see a non-int label equal to a held position (1.0); such a label is outside. *)
+Definition ext_safe (s : igo) (vs : list L) : bool :=
+  match g_map s with
+  | Some _ => true
+  | None => forallb (fun v => is_some (as_pos v) || negb (mem v (g_lm s))) vs
   end.
 
 Definition dom_iop (s : igo) (op : iop) : bool :=
   match op with
   | IAppend v => true
-  | IExtend vs => dom_extend s vs true
+  | IExtend vs => ext_safe s vs
   | IRead => true
   end.
 
@@ -343,8 +355,6 @@ Fixpoint lookup (v : L) (ls : list L) (xs : list V) : option V :=
   | l :: lr, x :: xr => if leq v l then Some x else lookup v lr xr
   | _, _ => None
   end.
-
-Definition is_some {A} (o : option A) : bool := match o with Some _ => true | None => false end.
 
 (* reindex of one array onto the frame's rows (Series.reindex, series.py:792-841; the per-block
    branch of TypeBlocks.resize_blocks, type_blocks.py:684-695; full_for_fill, util.py:510-535):
@@ -495,7 +505,7 @@ Definition M_step (f : fgo) (op : gop) : fgo * outcome :=
       | [] => (f, Ok tt)                                   (* `if not len(container.columns): return` *)
       | _ =>
           let bs := map (blk_align (f_rows f) fidx fill fdt) blocks in
-          let '(c2, o) := M_extend (f_cols f) fcols in       (* may stop half way *)
+          let '(c2, o) := M_extend (f_cols f) fcols in       (* validated as a whole since fix c675c22 *)
           match o with
           | Err e => (mk_fgo (f_rows f) c2 (f_tb f), Err e)
           | Ok _ =>
@@ -548,7 +558,7 @@ Definition dom_gop (f : fgo) (op : gop) : bool :=
   | OSet k v _ _ => value_wfb v
   | OItems pairs fill fdt => dom_items f pairs fill fdt true
   | OExtSeries name sidx _ vals _ _ => zlen vals =? zlen sidx
-  | OExtFrame fidx fcols blocks _ _ => extframe_wfb fidx fcols blocks && dom_extend (f_cols f) fcols true
+  | OExtFrame fidx fcols blocks _ _ => extframe_wfb fidx fcols blocks && ext_safe (f_cols f) fcols
   | OExtOther => true
   | ORead => true
   end.
